@@ -295,3 +295,174 @@ def plan_to_tla(p, pid):
                seq(p['readdims']) if p['readdims'] is not None else '<<-1>>',
                seq(p['reshape']) if p['reshape'] is not None else '<<-1>>', p['post'], p['skip'], seq(p['offsets']),
                p.get('ncolons', 0)))
+
+
+# =============================================================================
+# Ragged arrays (C07): index-array snippet + values snippet + accessor + example
+# =============================================================================
+ORD = {'first': 0, 'second': 1, 'third': 2}
+
+
+def _acc(**kw):
+    a = {'origin': 0, 'kaxis': 'second', 'startadd': 0, 'endadd': 0, 'endincl': True, 'nplace': 0, 'side': 'before',
+         'guard': 'none', 'emptydims': None}
+    a.update(kw)
+    return a
+
+
+def _example(comment_rx, stmt_rx, lines, lang, binds):
+    """the example: a comment naming ordinal and k, then the statement binding sa"""
+    text = '\n'.join(lines)
+    m = re.search(comment_rx, text)
+    if not m:
+        raise NotWellFormed('%s: example comment not found in %r' % (lang, text[-200:]))
+    ordinal, kc = m.group(1), int(m.group(2))
+    m2 = re.search(stmt_rx, text)
+    if not m2:
+        raise NotWellFormed('%s: example statement not found in %r' % (lang, text[-200:]))
+    return {'ordinal': ordinal, 'kcomment': kc, 'bind': m2.group(1), 'k': int(m2.group(2)),
+            'bind_ok': m2.group(1) in binds}
+
+
+def _split_after(lines, rx, count):
+    """cut `lines` after the count-th line matching rx"""
+    seen = 0
+    for i, ln in enumerate(lines):
+        if re.fullmatch(rx, ln):
+            seen += 1
+            if seen == count:
+                return lines[:i + 1], lines[i + 1:]
+    raise NotWellFormed('marker %r not found %d times' % (rx, count))
+
+
+def parse_ragged(lang, code):
+    """-> {'idx': plan, 'val': plan, 'acc': accessor, 'ex': example}"""
+    raw = _lines(code)
+    if lang == 'R':
+        ls = [x for x in raw if x.strip() and not x.startswith('#')]
+        a, rest = _split_after(ls, r'close\(fileid\)', 1)
+        b, rest = _split_after(rest, r'close\(fileid\)', 1)
+        idx, val = parse_r('\n'.join(a), 'i'), parse_r('\n'.join(b), 'v')
+        body = '\n'.join(rest)
+        m = re.search(r'getsubarray <- function\(k\)\{\n    starti <- i\[1,k\] \+ 1  # R starts counting from 1\n'
+                      r'    endi <- i\[2,k\]        # R has inclusive end index\n'
+                      r'    if \(starti > endi\) \{(?:  # subarray is empty)?\n'
+                      r'        return \((c\(\)|array\(numeric\(\),c\(([\d,]+)\)\))\)(?: # empty array)?\n'
+                      r'    \} else \{\n        return \(v\[((?:,)*)starti:endi\]\)\n    \}\n\}\n', body + '\n')
+        if not m:
+            raise NotWellFormed('R: accessor not recognised: %r' % body[:300])
+        ed = None if m.group(1) == 'c()' else _ints(m.group(2), 'R empty dims')
+        acc = _acc(origin=1, kaxis='second', startadd=1, endadd=0, endincl=True, nplace=len(m.group(3)), side='before',
+                   guard='empty_if_start_gt_end', emptydims=ed)
+        ex = _example(r'# example to read (\w+) \(k=(\d+)\) subarray:', r'\nsa (=|<-) getsubarray\((\d+)\)\s*$', raw, 'R',
+                      ('=', '<-'))
+        return {'idx': idx, 'val': val, 'acc': acc, 'ex': ex}
+    if lang == 'matlab':
+        ls = [x for x in raw if x.strip() and not x.startswith('%')]
+        a, rest = _split_after(ls, r'fclose\(fileid\);', 1)
+        idx = parse_matlab('\n'.join(a), 'i')
+        # the values snippet may end with 'v = complex(re, im);' after fclose
+        b, rest = _split_after(rest, r'fclose\(fileid\);', 1)
+        if rest and rest[0].startswith('v = complex('):
+            b, rest = b + [rest[0]], rest[1:]
+        val = parse_matlab('\n'.join(b), 'v')
+        if len(rest) != 2:
+            raise NotWellFormed('Matlab ragged: trailing %r' % rest)
+        m = _match(r'getsubarray = @\(k\) v\(((?::,)*)i\(1,k\)\+1:i\(2,k\)\);', rest[0], 'Matlab accessor')
+        acc = _acc(origin=1, kaxis='second', startadd=1, endincl=True, nplace=m.group(1).count(':'))
+        ex = _example(r'% example to read (\w+) \(k=(\d+)\) subarray:', r'\nsa (=) getsubarray\((\d+)\);\s*$', raw, 'Matlab', ('=',))
+        return {'idx': idx, 'val': val, 'acc': acc, 'ex': ex}
+    if lang == 'scilab':
+        ls = [x for x in raw if x.strip() and not x.startswith('/*')]
+        a, rest = _split_after(ls, r'mclose\(fileid\);', 1)
+        idx = parse_scilab('\n'.join(a), 'i')
+        b, rest = _split_after(rest, r'mclose\(fileid\);', 1)
+        if rest and rest[0].startswith('v = complex('):
+            b, rest = b + [rest[0]], rest[1:]
+        val = parse_scilab('\n'.join(b), 'v')
+        if len(rest) != 2:
+            raise NotWellFormed('Scilab ragged: trailing %r' % rest)
+        m = _match(r'deff\("sa = getsubarray\(k\)", "sa = v\(((?::,)*)i\(1,k\)\+1:i\(2,k\)\)"\)', rest[0], 'Scilab accessor')
+        acc = _acc(origin=1, kaxis='second', startadd=1, endincl=True, nplace=m.group(1).count(':'))
+        ex = _example(r'/\* example to read (\w+) \(k=(\d+)\) subarray: \*/', r'\nsa (=) getsubarray\((\d+)\);\s*$', raw,
+                      'Scilab', ('=',))
+        return {'idx': idx, 'val': val, 'acc': acc, 'ex': ex}
+    if lang == 'julia':
+        ls = [x for x in raw if x.strip() and not x.startswith('#')]
+        a, rest = _split_after(ls, r'close\(fileid\);', 1)
+        b, rest = _split_after(rest, r'close\(fileid\);', 1)
+        idx, val = parse_julia('\n'.join(a), 'i', 1), parse_julia('\n'.join(b), 'v', 1)
+        body = '\n'.join(rest)
+        m = re.fullmatch(r'function getsubarray\(k\)\n    starti = i\[1,k\]\+1  # Julia starts counting from 1\n'
+                         r'    endi = i\[2,k\]  # Julia has inclusive end index\n    v\[((?::,)*)starti:endi\]\nend\n'
+                         r'sa = getsubarray\(\d+\)', body)
+        if not m:
+            raise NotWellFormed('Julia: accessor not recognised: %r' % body[:300])
+        acc = _acc(origin=1, kaxis='second', startadd=1, endincl=True, nplace=m.group(1).count(':'))
+        ex = _example(r'# example to read (\w+) \(k=(\d+)\) subarray:', r'\nsa (=) getsubarray\((\d+)\)\s*$', raw, 'Julia', ('=',))
+        return {'idx': idx, 'val': val, 'acc': acc, 'ex': ex}
+    if lang == 'idl':
+        ls = [x for x in raw if x.strip() and not x.startswith(';')]
+        if len(ls) != 4:
+            raise NotWellFormed('IDL ragged: %d statements' % len(ls))
+        idx, val = parse_idl(ls[0], 'i'), parse_idl(ls[1], 'v')
+        mk = _match(r'k = (\d+) ?', ls[2], 'IDL k')
+        m = _match(r'IF i\[0,k\] EQ i\[1,k\] THEN sa=\[\] ELSE sa=v\[((?:\*,)*)i\[0,k\]:i\[1,k\]-1\]', ls[3], 'IDL accessor')
+        acc = _acc(origin=0, kaxis='second', startadd=0, endadd=-1, endincl=True, nplace=m.group(1).count('*'),
+                   guard='empty_if_equal')
+        text = '\n'.join(raw)
+        mc = re.search(r'; example to get the (\w+) \(k=(\d+)\) subarray from the values array,', text)
+        if not mc:
+            raise NotWellFormed('IDL: example comment not found')
+        ex = {'ordinal': mc.group(1), 'kcomment': int(mc.group(2)), 'bind': '=', 'k': int(mk.group(1)), 'bind_ok': True}
+        return {'idx': idx, 'val': val, 'acc': acc, 'ex': ex}
+    if lang == 'mathematica':
+        # comments must be complete (* ... *) groups followed by nothing on their line
+        text = '\n'.join(raw)
+        stripped = re.sub(r'\(\*.*?\*\)', '', text, flags=re.S)
+        for ln in stripped.split('\n'):
+            if ln.strip() in (':',) or re.fullmatch(r'\s*:\s*', ln):
+                raise NotWellFormed('Mathematica: stray %r after a comment' % ln)
+        ls = [x for x in stripped.split('\n') if x.strip()]
+        if len(ls) < 10:
+            raise NotWellFormed('Mathematica ragged: %d statements' % len(ls))
+        idx, val = parse_mathematica('\n'.join(ls[0:2]), 'i'), parse_mathematica('\n'.join(ls[2:4]), 'v')
+        body = '\n'.join(ls[4:])
+        m = re.fullmatch(r'getsubarray\[k_\?IntegerQ\] := \n    Module\[\{l\},\n        l = k;\n'
+                         r'        starti = i\[\[l,1\]\] \+ 1;\n        endi = i\[\[l,2\]\];\n'
+                         r'        v\[\[starti;;endi\]\]\]\nsa = getsubarray\[\d+\]', body)
+        if not m:
+            raise NotWellFormed('Mathematica: accessor not recognised: %r' % body[:300])
+        acc = _acc(origin=1, kaxis='first', startadd=1, endincl=True, nplace=0, side='none')
+        ex = _example(r'\(\* example to read (\w+) \(k=(\d+)\) subarray: \*\)', r'\nsa (=|:=) getsubarray\[(\d+)\]\s*$', raw,
+                      'Mathematica', ('=', ':='))
+        return {'idx': idx, 'val': val, 'acc': acc, 'ex': ex}
+    if lang == 'maple':
+        ls = [x for x in raw if x.strip() and not x.startswith('#')]
+        a, rest = ls[0:3], ls[3:]
+        idx = parse_maple('\n'.join(a), 'i')
+        nv = 3 if len(rest) > 2 and rest[2].startswith('v := ArrayTools') else 2
+        val = parse_maple('\n'.join(rest[:nv]), 'v')
+        body = '\n'.join(rest[nv:])
+        m = re.fullmatch(r'getsubarray := proc \(k::integer\);\n    v\(((?:\.\.,)*) i\(1,k\) \+ 1 \.\. i\(2,k\)\);\nend proc;\n'
+                         r'sa :?= getsubarray\(\d+\);', body)
+        if not m:
+            raise NotWellFormed('Maple: accessor not recognised: %r' % body[:300])
+        acc = _acc(origin=1, kaxis='second', startadd=1, endincl=True, nplace=m.group(1).count('..'))
+        ex = _example(r'# example to read (\w+) \(k=(\d+)\) subarray:', r'\nsa (=|:=) getsubarray\((\d+)\);\s*$', raw, 'Maple',
+                      (':=',))
+        return {'idx': idx, 'val': val, 'acc': acc, 'ex': ex}
+    raise NotWellFormed('no ragged front end for %s' % lang)
+
+
+def ragged_to_tla(rp, pid):
+    a = rp['acc']
+    e = rp['ex']
+    return ('[id |-> %d, lang |-> "%s", idx |-> %s, val |-> %s, '
+            'acc |-> [origin |-> %d, kaxis |-> "%s", startadd |-> %d, endadd |-> %d, endincl |-> %s, nplace |-> %d, '
+            'side |-> "%s", guard |-> "%s", emptydims |-> %s], '
+            'ex |-> [ordinal |-> "%s", kcomment |-> %d, k |-> %d, bindok |-> %s]]'
+            % (pid, rp['idx']['lang'], plan_to_tla(rp['idx'], pid), plan_to_tla(rp['val'], pid), a['origin'], a['kaxis'],
+               a['startadd'], a['endadd'], 'TRUE' if a['endincl'] else 'FALSE', a['nplace'], a['side'], a['guard'],
+               ('<<' + ', '.join(map(str, a['emptydims'])) + '>>') if a['emptydims'] is not None else '<<-1>>',
+               e['ordinal'], e['kcomment'], e['k'], 'TRUE' if e['bind_ok'] else 'FALSE'))
